@@ -15,8 +15,12 @@ Four layers (DESIGN §4 C16):
 3. **attribute translation** — `pthread_attr_to_myth` on top of the attribute model of C01
    (`C16_attr_no_undef`, `C16_attr_detached`);
 4. **programs** — `MythVerif.PthProg`: `C16_eval_determinate` for the fork-join +
-   lock-protected-commutative fragment.  For the other constructs of the description language
-   (condition-variable gates and buffers, barrier phases, once, keys, detached threads, sleeps)
+   lock-protected-commutative fragment; `MythVerif.PthGate`: the same fragment extended by monotone
+   condition-variable gates (`post` / `await`): `C16_eval_determinate_gates` (any two complete
+   executions agree, and equal the closed formula), `C16_gates_monotone`,
+   `C16_gates_stuck_is_deadlock` (no divergence: the only way not to terminate is a deadlock).
+   For the other constructs of the description language
+   (bounded buffers, barrier phases, once, keys, detached threads, sleeps)
    determinacy is by construction of the generator; what a generated program prints under the
    system library, under both redirection mechanisms and under `Flat.eval` is compared by
    differential execution (check/props/c16.py) — the system library is the oracle there, not a
